@@ -24,7 +24,7 @@ ASSUME = ['Linux tmpfs semantics of the POSIX mirror calls are the reference ("t
           'rights are mapped to open(2) access modes as wasi.c documents (read|write -> O_RDWR, write -> O_WRONLY, else O_RDONLY)']
 
 NONTRIVIAL = ('positional_then_sequential', 'multi_iovec_with_empty', 'offset>=2^32', 'offset>=2^63', 'append', 'unstable_seek', 'filestat_of_renamed_or_unlinked_open_file',
-              'write_at_file_size_limit')
+              'write_at_file_size_limit', 'fifo_descriptor')
 OFFSETS = st.one_of(st.integers(0, 4096), st.sampled_from([0, 1, 99, (1 << 31) - 1, 1 << 31, (1 << 32) - 1, 1 << 32, (1 << 32) + 5,
                                                           1 << 33, 1 << 40, (1 << 63) - 1,
                                                           # the full 64-bit range: as off_t these are negative (POSIX: EINVAL)
@@ -51,6 +51,12 @@ class C12Machine(RuleBasedStateMachine):
     def path_open(self, name, creat, excl, trunc, directory, read, write, append):
         oflags = (1 if creat else 0) | (2 if directory else 0) | (4 if excl else 0) | (8 if trunc else 0)
         fd = self.ex.path_open(self.ex.preopens[0], name, oflags, read, write, append)
+        return fd if fd is not None else multiple()
+
+    @rule(target=fds, idx=st.integers(0, 2))
+    def open_fifo(self, idx):
+        # a descriptor that is not seekable (ESPIPE from every positional / seeking call), obtained like any other
+        fd = self.ex.open_fifo(self.ex.preopens[0], idx)
         return fd if fd is not None else multiple()
 
     @rule(fd=fds, bufs=BUFS)
